@@ -141,6 +141,9 @@ func c11Judge(k c11Case) *vlib.Failure {
 		if len(rec.Body) != 0 {
 			return vlib.Failf("preflight response has a body %q", rec.Body)
 		}
+		if rec.WroteN > 1 {
+			return vlib.Failf("preflight: the middleware called WriteHeader %d times", rec.WroteN)
+		}
 		// headers set earlier in the chain survive
 		for kk, v := range k.Preset {
 			got := rec.H[kk]
